@@ -494,6 +494,10 @@ HOSTILE_JS = [b'var a = "http://[bad/"; var b = "//"; var c = "http://a.test:999
 # links in schemes that carry their own syntax (data: media types, scheme-only, odd ports) in positions every scraper reads
 _ODD_LINKS = [b'data:a/b/c,x/', b'data:,/', b'data:/,/', b'data:;base64,/', b'data:text/html;charset==,/', b'javascript:/', b'mailto:/x/', b'http:/', b'http:', b'://x/',
               b'http://a.test:/x/', b'http://a.test:0x50/', b'//:80/', b'/\\a.test/', b'http://a.test/\\ud800/', b'ftp://a.test:99999/', b'http://%zz/', b'http://a..test./x/', b'file:///etc/', b'/%00/']
+# names that no file system takes: more directory levels than os.makedirs can recurse through, a path beyond PATH_MAX made of
+# components that each fit (the per-component limit of --max-filename-length does not bound the whole path)
+_DEEP_LINKS = [b'/deep/' + b'd/' * 1200 + b'x.html', b'/long/' + (b'c' * 150 + b'/') * 40 + b'y.html']
+HOSTILE_HTML += [b'<html>' + b''.join(b'<a href="' + l + b'">deep</a>' for l in _DEEP_LINKS) + b'</html>']
 HOSTILE_JS += [b'var links = [' + b', '.join(b'"' + l + b'"' for l in _ODD_LINKS) + b'];']
 HOSTILE_HTML += [b'<html>' + b''.join(b'<a href="' + l + b'">x</a><img src="' + l + b'" srcset="' + l + b' 2x"><div data-href="' + l + b'"></div>' for l in _ODD_LINKS) + b'</html>']
 HOSTILE_CSS += [b''.join(b'@import url("' + l + b'"); a { background: url(' + l + b') }\n' for l in _ODD_LINKS)]
